@@ -120,6 +120,29 @@ Theorem C16_date_mid_added_once_when_absent : forall chain n0 e x, fresh_input e
        map fst (named n_mid (hdr x)) = if existsb (is_mid rule) chain then [n_mid] else []).
   Proof. exact (absent_added_once rule subn lower date_of mid_of recv_of). Qed.
 
+  (* the policies are stateless: one Queue / one list of policy objects handling any
+     sequence of messages (same or different recipient lists, in any order) gives
+     for each message exactly the outcome - envelopes in order, with sender,
+     recipients, headers, body; results.remove never failing - that a new chain gives
+     for that message alone, whatever came before it; and no two envelopes of the
+     same or of different messages share an Envelope / recipient-list / header /
+     client object.  (Generated header texts depend on the contents of the envelope,
+     not on which objects hold them: the three premises.)  Hence conservation, the
+     header rules and the forwarding rules above hold for every message of every
+     sequence. *)
+Theorem C16_policies_stateless : forall chain n ms,
+    (forall d e, date_of (shift_env d e) = date_of e) ->
+    (forall d e, mid_of (shift_env d e) = mid_of e) ->
+    (forall d e, recv_of (shift_env d e) = recv_of e) ->
+    map outcome (run_messages rule subn lower date_of mid_of recv_of chain n ms)
+    = map (fun m => outcome (run chain 4 (mk_input 0 m))) ms
+    /\ NoDup (flat_map ids (flat_map results (run_messages rule subn lower date_of mid_of recv_of chain n ms))).
+  Proof.
+    intros chain n ms Hd Hm Hr. split.
+    - exact (stateless rule subn lower date_of mid_of recv_of Hd Hm Hr chain ms n).
+    - exact (proj1 (messages_no_sharing rule subn lower date_of mid_of recv_of chain ms n)).
+  Qed.
+
   (* policies returning their input among their outputs: returning [envelope]
      changes nothing; PKeepSplit really returns the input object (all theorems
      above cover chains with these policies) *)
@@ -144,4 +167,5 @@ Print Assumptions C16_forward_identity_match_stops.
 Print Assumptions C16_present_header_suppresses.
 Print Assumptions C16_date_mid_kept_when_present.
 Print Assumptions C16_date_mid_added_once_when_absent.
+Print Assumptions C16_policies_stateless.
 Print Assumptions C16_input_among_outputs.
